@@ -178,8 +178,37 @@ class World:
                                      cwd=self.dir)
         if wait:
             if not self.wait_listening():
+                self.stop_proc()
                 raise RuntimeError('pgcat did not start: ' + self.read_log()[-2000:])
+            # the port was picked by bind(0)/close: another process may have taken it in between, in which case our
+            # pgcat fails to bind and what answered the probe connection was somebody else.  Our own process records
+            # the probe connection in its hook trace.
+            deadline = time.time() + 2.0
+            ours = False
+            while time.time() < deadline:
+                if self.proc.poll() is not None:
+                    break
+                if any(h['ev'] == 'accept' for h in self.hooks()):
+                    ours = True
+                    break
+                time.sleep(0.01)
+            if not ours:
+                log = self.read_log()[-2000:]
+                self.stop_proc()
+                raise RuntimeError('AddrInUse (port %d answered, but not by this pgcat): %s' % (self.port, log))
         return self.proc
+
+    def stop_proc(self):
+        if self.proc is not None and self.proc.poll() is None:
+            try:
+                self.proc.kill()
+                self.proc.wait(timeout=3)
+            except Exception:
+                pass
+        try:
+            os.unlink(self.trace_path)
+        except OSError:
+            pass
 
     def wait_listening(self, timeout=10.0):
         end = time.time() + timeout
